@@ -23,7 +23,7 @@ macro_rules! c09_img {
             note!("offset", o); note!("q", q);
             let img = Image::new(&raw, o);
             let mut a = NProbe::<$C>::new(q, BIG);
-            let mut b = Probe::<$C>::new(q, BIG);
+            let mut b = Probe::<$C>::new(q, sym_bbox(q));
             img.draw(&mut a).unwrap();
             img.draw(&mut b).unwrap();
             let rel = q - o;
@@ -69,7 +69,7 @@ macro_rules! c09_sub {
             let sub = raw.sub_image(&area);
             let img = Image::new(&sub, o);
             let mut a = NProbe::<$C>::new(q, BIG);
-            let mut b = Probe::<$C>::new(q, BIG);
+            let mut b = Probe::<$C>::new(q, sym_bbox(q));
             img.draw(&mut a).unwrap();
             img.draw(&mut b).unwrap();
             let eff = R::of(&area).inter(&R { l: 0, t: 0, w: W as i64, h: H as i64 });
